@@ -30,6 +30,8 @@ type srv struct {
 	stop func()
 	addr string
 	mid  atomic.Uint64
+	// replicas is the replica count given to groups created through group() (0 on a standalone)
+	replicas uint32
 }
 
 // boot starts a standalone server in this process. Any gomega failure inside the setup helpers panics.
@@ -45,6 +47,30 @@ func boot(t *testing.T, flags ...string) *srv {
 	return &srv{addr: addr, conn: conn, stop: func() { conn.Close(); stop() }}
 }
 
+// bootCluster starts nData data nodes and one liaison in this process (file-based discovery, property schema).
+func bootCluster(t *testing.T, nData int, dir string, liaisonFlags []string, dataFlags ...string) *srv {
+	gomega.RegisterFailHandler(func(message string, _ ...int) { panic("setup: " + message) })
+	cfg := setup.PropertyClusterConfig(setup.NewDiscoveryFileWriter(dir))
+	var stops []func()
+	for i := 0; i < nData; i++ {
+		ff := append([]string{"--measure-flush-timeout=200ms", "--stream-flush-timeout=200ms", "--trace-flush-timeout=200ms"}, dataFlags...)
+		stops = append(stops, setup.DataNode(cfg, ff...))
+	}
+	addr, stopL := setup.LiaisonNode(cfg, liaisonFlags...)
+	conn, err := grpc.NewClient(addr, grpc.WithTransportCredentials(insecure.NewCredentials()),
+		grpc.WithDefaultCallOptions(grpc.MaxCallRecvMsgSize(256<<20), grpc.MaxCallSendMsgSize(256<<20)))
+	if err != nil {
+		t.Fatal(err)
+	}
+	return &srv{addr: addr, conn: conn, stop: func() {
+		conn.Close()
+		stopL()
+		for _, f := range stops {
+			f()
+		}
+	}}
+}
+
 func ctxT() (context.Context, context.CancelFunc) {
 	return context.WithTimeout(context.Background(), 120*time.Second)
 }
@@ -54,7 +80,7 @@ func (s *srv) group(name string, cat commonv1.Catalog, shards uint32, unit commo
 	defer cancel()
 	_, err := databasev1.NewGroupRegistryServiceClient(s.conn).Create(ctx, &databasev1.GroupRegistryServiceCreateRequest{Group: &commonv1.Group{
 		Metadata: &commonv1.Metadata{Name: name}, Catalog: cat,
-		ResourceOpts: &commonv1.ResourceOpts{ShardNum: shards,
+		ResourceOpts: &commonv1.ResourceOpts{ShardNum: shards, Replicas: s.replicas,
 			SegmentInterval: &commonv1.IntervalRule{Unit: unit, Num: num},
 			Ttl:             &commonv1.IntervalRule{Unit: commonv1.IntervalRule_UNIT_DAY, Num: ttlDays}},
 	}})
